@@ -826,7 +826,7 @@ fn run_miri_args(prog_args: &[String], flags: &str) -> Result<String, String> {
         .args(prog_args)
         .current_dir(&dir)
         .env("MIRIFLAGS", flags)
-        .env("CARGO_TARGET_DIR", verif_dir().join(".target/miri"))
+        .env("CARGO_TARGET_DIR", std::env::var("VSIM_MIRI_TARGET").map(PathBuf::from).unwrap_or_else(|_| verif_dir().join(".target/miri")))
         .env("CARGO_NET_OFFLINE", "true")
         .env_remove("RUSTFLAGS")
         .env_remove("LD_PRELOAD")
